@@ -14,6 +14,10 @@ type env struct {
 	ret    []Val
 	steps  int
 	flat   bool // alternate semantics: no block scopes (an inner var of an existing name assigns it)
+	// litSext: alternate semantics of `x = literal` inside a branch for a signed
+	// x wider than the literal's storage (32 bits below 2^32, else 64): the
+	// literal is sign-extended from its storage width
+	litSext bool
 }
 
 func (e *env) push() { e.scopes = append(e.scopes, map[string]*Val{}) }
@@ -650,12 +654,15 @@ func (g *gen) callExpr(t *Type, depth int) (expr, bool) {
 		for _, a := range args {
 			vals = append(vals, a.eval(e))
 		}
-		return callFn(f, vals, e.flat)[0]
+		return callFnEnv(f, vals, &env{flat: e.flat, litSext: e.litSext})[0]
 	}}, true
 }
 
 func callFn(f *function, args []Val, flat bool) []Val {
-	e := &env{flat: flat}
+	return callFnEnv(f, args, &env{flat: flat})
+}
+
+func callFnEnv(f *function, args []Val, e *env) []Val {
 	e.push()
 	for i, p := range f.params {
 		e.def(p.name, args[i])
@@ -735,7 +742,39 @@ func (g *gen) stmt(depth int, rets []*Type, allowReturn bool) stmt {
 	arrays := g.varsOf(func(v variable) bool { return !v.ro && v.t.Kind == KArr })
 	structs := g.varsOf(func(v variable) bool { return !v.ro && v.t.Kind == KStruct })
 	for {
-		switch g.r.Intn(20) {
+		switch g.r.Intn(21) {
+		case 20: // x takes one of two literals depending on a condition (a select of two constants)
+			if len(assignable) == 0 || depth <= 0 || g.inLoop > 0 {
+				continue
+			}
+			v := vrt.Pick(g.r, assignable)
+			if !v.t.Integer() {
+				continue
+			}
+			n, t := v.name, v.t
+			c := g.expr(Bool, g.cfg.MaxDepth)
+			l1, l2 := g.lit(t), g.lit(t)
+			if l1.eval(nil).I.Cmp(l2.eval(nil).I) == 0 {
+				continue // the same literal in both arms makes the variable a constant (folding: C12)
+			}
+			g.feat["literal-select"] = true
+			if litStorageSign(l1.eval(nil).I, t) != nil || litStorageSign(l2.eval(nil).I, t) != nil {
+				g.feat["literal-select-top-storage-bit"] = true
+			}
+			return stmt{lines: []string{"if " + c.src + " {", "\t" + n + " = " + l1.src, "} else {", "\t" + n + " = " + l2.src, "}"}, exec: func(en *env) bool {
+				l := l2
+				if c.eval(en).I.Sign() != 0 {
+					l = l1
+				}
+				v := l.eval(en).I
+				if en.litSext {
+					if alt := litStorageSign(v, t); alt != nil {
+						v = alt
+					}
+				}
+				en.get(n).I = v
+				return false
+			}}
 		case 17: // for i, v := range a / for _, v := range a / for i := range a
 			if !g.cfg.Loops || depth <= 0 || g.inLoop >= 2 {
 				continue
@@ -1120,6 +1159,23 @@ func (g *gen) stmt(depth int, rets []*Type, allowReturn bool) stmt {
 	}
 }
 
+// litStorageSign returns what a non-negative literal becomes in a signed type
+// wider than its storage (32 bits below 2^32, 64 bits below 2^64) when its top
+// storage bit is taken for a sign, or nil when the question does not arise.
+func litStorageSign(v *big.Int, t *Type) *big.Int {
+	if t.Kind != KInt || v.Sign() < 0 {
+		return nil
+	}
+	storage := 32
+	if v.BitLen() > 32 {
+		storage = 64
+	}
+	if v.BitLen() > 64 || t.Bits <= storage || v.Bit(storage-1) == 0 {
+		return nil
+	}
+	return wrap(new(big.Int).Sub(v, new(big.Int).Lsh(big.NewInt(1), uint(storage))), t.Bits)
+}
+
 func isBareLiteral(s string) bool {
 	for _, c := range s {
 		if c < '0' || c > '9' {
@@ -1347,7 +1403,7 @@ func (g *gen) multiCall(depth int) (stmt, bool) {
 		for _, a := range args {
 			vals = append(vals, a.eval(en))
 		}
-		res := callFn(f, vals, en.flat)
+		res := callFnEnv(f, vals, &env{flat: en.flat, litSext: en.litSext})
 		for i, n := range names {
 			en.def(n, res[i])
 		}
@@ -1585,6 +1641,18 @@ func (p *Program) RunFlat(args []Val) ([]Val, error) { return p.run(args, true) 
 
 // Run executes the reference semantics.
 func (p *Program) Run(args []Val) ([]Val, error) { return p.run(args, false) }
+
+// RunLitSext executes the program under the alternate semantics in which a
+// literal assigned in a branch to a signed variable wider than the literal's
+// storage is sign-extended from that storage width.
+func (p *Program) RunLitSext(args []Val) (res []Val, err error) {
+	defer func() {
+		if r := recover(); r != nil {
+			err = fmt.Errorf("interpreter: %v", r)
+		}
+	}()
+	return callFnEnv(p.mainFn, args, &env{litSext: true}), nil
+}
 
 func (p *Program) run(args []Val, flat bool) (res []Val, err error) {
 	defer func() {
